@@ -25,6 +25,7 @@ HTML_FEATURES = {
 }
 EPUB_FEATURES = {
     "href-plus": "a chapter file whose name contains '+' (twin: plain name)",
+    "href-dot-segments": "a chapter whose manifest href walks through dot segments (images/../text/ch.xhtml, ./text/ch.xhtml - relative references as tools that keep the OPF elsewhere write them) (twin: the plain href)",
     "href-percent-encoded": "a chapter file whose name contains a blank and a non-ASCII letter, percent-encoded in the manifest href (twin: plain name)",
     "empty-table": "a table whose cells are all empty between two filled tables (twin: its first cell is filled)",
     "title-row-colspan": "a table whose first row is one cell spanning the three columns of the rows below (twin: three cells)",
@@ -290,7 +291,10 @@ def build_epub(seed, feature=None, twin=False):
                        "blank": (f"chapter {c + 1} é.xhtml", f"chapter%20{c + 1}%20%C3%A9.xhtml")}[style]
         files[f"OEBPS/text/{fname}"] = (f'<?xml version="1.0" encoding="utf-8"?><!DOCTYPE html><html xmlns="http://www.w3.org/1999/xhtml"><head><title>{ttl}</title></head>'
                                                 f"<body>{body}</body></html>").encode()
-        manifest.append(f'<item id="ch{c + 1}" href="text/{href}" media-type="application/xhtml+xml"/>')
+        folder = "text/"
+        if risky == "href-dot-segments" and c == fch:
+            folder = fname_rng.choice(["images/../text/", "./text/", "text/./", "text/sub/../", "../OEBPS/text/"])
+        manifest.append(f'<item id="ch{c + 1}" href="{folder}{href}" media-type="application/xhtml+xml"/>')
         spine.append(f'<itemref idref="ch{c + 1}"/>')
         if rng.random() < 0.4:
             n_img += 1
